@@ -403,6 +403,21 @@ var c18DotNames = func() []string {
 	return out
 }()
 
+// c18ForeignNames: a letter or digits, ':' and/or '\\' in every position of a name
+var c18ForeignNames = func() []string {
+	out := []string{":", "::", "con", "nul", "\\\\srv"}
+	for _, a := range []string{"c", "C", "10", "a-b", ""} {
+		for _, sep := range []string{":", ":\\", "\\"} {
+			for _, b := range []string{"", "x", "30:00", "d"} {
+				if n := a + sep + b; n != ":" && n != "\\" {
+					out = append(out, n)
+				}
+			}
+		}
+	}
+	return out
+}()
+
 // c18Pool: the name pool of a case. dots: about half of the picks are dot-prefixed names.
 func c18Pool(r *Rng, rich, dots bool) []string {
 	names := c18Names[:9]
@@ -414,6 +429,19 @@ func c18Pool(r *Rng, rich, dots bool) []string {
 		out = append([]string{}, names[:5]...)
 		for i := 0; i < 5; i++ {
 			out = append(out, Pick(r, c18DotNames))
+		}
+	}
+	// names with bytes that are special on OTHER platforms and must be ordinary here: ':' (volume
+	// separator: "c:", "C:x", a time stamp), '\\' (separator), drive-like and device-like names
+	if r.Chance(35) {
+		out = append([]string{}, out...)
+		keep := len(out) / 2
+		if keep < 3 {
+			keep = len(out)
+		}
+		out = out[:keep]
+		for i := 3 + r.Intn(3); i > 0; i-- {
+			out = append(out, Pick(r, c18ForeignNames))
 		}
 	}
 	// names that are byte-prefixes of one another WITHOUT a separator at the boundary (lib / lib64,
